@@ -49,6 +49,10 @@ def gen_spec(rng, small: bool = False) -> dict:
         k = rng.randint(1, 4)
         lo = rng.choice([0, 0, 0, -2])
         enums.append(sorted(rng.sample(range(lo, lo + 6), k)))
+    # static-only plain `enum.Enum`s (index >= nen): member values need not be ints (str-valued, mixed, int-valued)
+    for _ in range(rng.randint(0, 2)):
+        pool = rng.choice([["alu", "mul", "lsu", "x"], ["alu", "mul", 3, 0], [7, 1, -4, 100]])
+        enums.append(rng.sample(pool, rng.randint(1, len(pool))))
     kinds = ["i", "i", "b", "o", "e"]
 
     def kind():
@@ -62,8 +66,8 @@ def gen_spec(rng, small: bool = False) -> dict:
         for _ in range(rng.randint(0, 3)):
             ent.append(["d", kind()])
         for _ in range(rng.randint(0, 2)):
-            k = rng.choice(["i", "s", "b", "e"])
-            ent.append(["s", ["e", rng.randrange(nen)] if k == "e" else ["o"] if k == "s" else [k]])
+            k = rng.choice(["i", "s", "b", "e", "e"])
+            ent.append(["s", ["e", rng.randrange(len(enums))] if k == "e" else ["o"] if k == "s" else [k]])
         rng.shuffle(ent)
         events.append(ent)
     fsigs: list = []
@@ -121,6 +125,7 @@ def gen_spec(rng, small: bool = False) -> dict:
     return {
         "tree": tree,
         "enums": enums,
+        "nint": nen,
         "events": events,
         "fsigs": fsigs,
         "whens": whens,
@@ -184,7 +189,7 @@ def site_fields(spec, i):
 
 def kind_str(spec, kd):
     if kd[0] == "e":
-        return "e" + ":".join(str(v) for v in spec["enums"][kd[1]])
+        return "e" + ":".join(f"${v}" if isinstance(v, str) else str(v) for v in spec["enums"][kd[1]])
     return kd[0]
 
 
@@ -195,7 +200,7 @@ def site_statics(spec, i):
     out = []
     for kd, v in zip(st, s["statics"]):
         if v[0] == "e":
-            raw = f"i{v[2]}"
+            raw = f"s{v[2]}" if isinstance(v[2], str) else f"i{v[2]}"
         elif v[0] == "b":
             raw = f"i{int(v[1])}"
         elif v[0] == "i":
@@ -286,7 +291,11 @@ class _Built:
         self.spec = spec
         uid = next(_uid)
         self.pid = os.getpid()
-        self.enums = [enum.IntEnum(f"K{uid}_{i}", {f"M{j}": v for j, v in enumerate(ms)}) for i, ms in enumerate(spec["enums"])]
+        nint = spec.get("nint", len(spec["enums"]))  # the first `nint` enums are IntEnums, the rest plain Enums
+        self.enums = [
+            (enum.IntEnum if i < nint else enum.Enum)(f"K{uid}_{i}", {f"M{j}": v for j, v in enumerate(ms)})
+            for i, ms in enumerate(spec["enums"])
+        ]
 
         def ann(kd, static):
             t = {"i": int, "b": bool, "o": object}.get(kd[0]) if kd[0] != "e" else self.enums[kd[1]]
@@ -417,7 +426,7 @@ def show_evs(evs) -> str:
 
 def show_val(v) -> str:
     if isinstance(v, enum.Enum):
-        return f"e{v.value}"
+        return f"e${v.value}" if isinstance(v.value, str) else f"e{v.value}"
     if isinstance(v, bool):
         return "bT" if v else "bF"
     if isinstance(v, int):
@@ -565,7 +574,7 @@ def impl(case: Case) -> list[str]:
                 f"spk={int(same(sink_pk))} sps={int(same(sink_ps))} sch={int(schema_matches(b, spec, schema))}"
             )
             if dec is None:
-                out.append(f"{pre} dec=! disp=!")
+                out.append(f"{pre} dec=! disp=! rdisp=!")
             else:
                 calls: list = []
                 base = EventConsumer
@@ -593,7 +602,23 @@ def impl(case: Case) -> list[str]:
                 final().run(iter(pds))
                 dtxt = ";".join(show_dec(schema, d) for d in dec) or "-"
                 ctxt = ";".join(f"{h}@{show_dec(schema, d).split(':')[0]}" for h, d in calls) or "-"
-                out.append(f"{pre} dec={dtxt} disp={ctxt}")
+                # a file that is NOT in cycle order: the sampler replays the second half of the cycles into an
+                # EventLogWriter first, then the first half; the EventLogReader object itself is handed to run()
+                mid = nc // 2
+                upath = os.path.join(tmp, "unordered.jsonl")
+                uw = EventLogWriter(upath, schema)
+                for k in [*range(mid, nc), *range(0, mid)]:
+                    load_cycle(k)
+                    s_pk.sample(k, uw)
+                uw.close()
+                calls.clear()
+                ureader = EventLogReader(upath)
+                try:
+                    final().run(ureader)
+                    rtxt = ";".join(f"{h}@{show_dec(ureader.schema, d).split(':')[0]}" for h, d in calls) or "-"
+                except ValueError:
+                    rtxt = "!"
+                out.append(f"{pre} dec={dtxt} disp={ctxt} rdisp={rtxt}")
     # op lines that are neither cyc nor fin do not occur; pad defensively
     while len(out) < len(case.lines()):
         out.append("bad-op")
@@ -632,8 +657,10 @@ def parse_cfg(cfg: str):
 def conv(kind: str, raw):
     """what Event.from_raw must produce for annotation `kind` (None = ValueError)"""
     if kind.startswith("e"):
-        ms = [int(x) for x in kind[1:].split(":")] if len(kind) > 1 else []
-        return f"e{raw}" if (isinstance(raw, int) and raw in ms) else None
+        ms = [(x[1:] if x.startswith("$") else int(x)) for x in kind[1:].split(":")] if len(kind) > 1 else []
+        if not any(type(m) is type(raw) and m == raw for m in ms):
+            return None
+        return f"e${raw}" if isinstance(raw, str) else f"e{raw}"
     if kind == "b":
         return "bT" if raw else "bF"
     return f"i{raw}" if isinstance(raw, int) else f"s{raw}"
@@ -705,22 +732,26 @@ def monitor(case: Case, out: list[str]):
         given = keys[kk:] + keys[:kk]
     else:
         given = keys
-    calls = [] if f["disp"] == "-" else [x.split("@") for x in f["disp"].split(";")]
-    ck = [tuple(int(z) for z in x[1].split(".")) for x in calls]
-    if any(a[0] > b[0] for a, b in zip(ck, ck[1:])):
-        return f"EventConsumer.run dispatched out of cycle order: {ck[:10]}"
-    if sorted(ck) != sorted(given):
-        return "EventConsumer.run did not dispatch exactly the given records"
-    for c in {c for c, _ in given}:
-        if [x for x in ck if x[0] == c] != [x for x in given if x[0] == c]:
-            return f"EventConsumer.run reordered the records of cycle {c}"
-    for (h, _), (c, s) in zip(calls, ck):
-        wanth = "on_unhandled"
-        for e, m in hs:
-            if e == sites[s]["ev"]:
-                wanth = m
-        if h != wanth:
-            return f"record ({c}, site {s}) of event {sites[s]['ev']} went to {h}, registered handler is {wanth}"
+    nc = sum(1 for o in case.ops if o.startswith("cyc"))
+    mid = nc // 2
+    unordered = [k for k in keys if k[0] >= mid] + [k for k in keys if k[0] < mid]
+    for field, inp, how in (("disp", given, f"run(records in order {perm})"), ("rdisp", unordered, "run(EventLogReader(file with the later cycles first))")):
+        calls = [] if f[field] == "-" else [x.split("@") for x in f[field].split(";")]
+        ck = [tuple(int(z) for z in x[1].split(".")) for x in calls]
+        if any(a[0] > b[0] for a, b in zip(ck, ck[1:])):
+            return f"EventConsumer.{how} dispatched out of cycle order: (cycle, site) = {ck[:10]}"
+        if sorted(ck) != sorted(inp):
+            return f"EventConsumer.{how} did not dispatch exactly the given records"
+        for c in {c for c, _ in inp}:
+            if [x for x in ck if x[0] == c] != [x for x in inp if x[0] == c]:
+                return f"EventConsumer.{how} reordered the records of cycle {c}"
+        for (h, _), (c, s_) in zip(calls, ck):
+            wanth = "on_unhandled"
+            for e, m in hs:
+                if e == sites[s_]["ev"]:
+                    wanth = m
+            if h != wanth:
+                return f"EventConsumer.{how}: record ({c}, site {s_}) of event {sites[s_]['ev']} went to {h}, registered handler is {wanth}"
     return None
 
 
